@@ -136,18 +136,24 @@ def parse(text):
     line = 1
     at_line_start = True   # a command may only start when no other command was seen on this line
     seen_cmd_on_line = False
+    comment_before = False   # CMake accepts a bracket comment after a command on its line, not before one
     while i < n:
         k, a, b = toks[i]
         if k == "newline":
-            line += 1; seen_cmd_on_line = False; i += 1; continue
+            line += 1; seen_cmd_on_line = False; comment_before = False; i += 1; continue
         if k in ("space", "bracket_comment"):
-            line += text.count("\n", a, b); i += 1; continue
+            line += text.count("\n", a, b)
+            if k == "bracket_comment":
+                comment_before = True
+            i += 1; continue
         if k == "line_comment":
             i += 1; continue
         if k != "identifier":
             raise LexError(f"expected a command name, got {k} {text[a:b]!r}", a)
         if seen_cmd_on_line:
             raise LexError("expected a newline after a command invocation", a)
+        if comment_before:
+            raise LexError("expected a newline after a bracket comment", a)
         name = text[a:b]
         cline = line
         i += 1
